@@ -68,6 +68,7 @@ type sink struct {
 	nRdy  int32
 	nLine int32
 	nTorn int32
+	nInfo int32
 }
 
 func classify(line string) string {
@@ -113,6 +114,8 @@ func (s *sink) Write(p []byte) (int, error) {
 			atomic.AddInt32(&s.nLine, 1)
 		case "torn":
 			atomic.AddInt32(&s.nTorn, 1)
+		case "info":
+			atomic.AddInt32(&s.nInfo, 1)
 		}
 	}
 	return len(p), nil
@@ -408,6 +411,90 @@ func (r *runner) run(steps int) {
 	}
 }
 
+// ---- replay of behaviours enumerated by TLC (UciGen.tla): steps are performed one at a time, each after the
+// driver has produced exactly the number of lines the model says it has produced at that point
+type pathStep struct {
+	K string `json:"k"`
+	A string `json:"a"`
+	N int    `json:"n"`
+}
+type pathT struct {
+	Steps []pathStep `json:"steps"`
+	Out   []string   `json:"out"`
+}
+
+func (r *runner) lines() int {
+	return int(atomic.LoadInt32(&r.out.nBest) + atomic.LoadInt32(&r.out.nRdy) + atomic.LoadInt32(&r.out.nLine) + atomic.LoadInt32(&r.out.nInfo) + atomic.LoadInt32(&r.out.nTorn))
+}
+
+func (r *runner) replay(p pathT) {
+	// the Ponder option is on for every replayed behaviour (a silent command for the model: "pos")
+	r.send("pos", "setoption name Ponder value true")
+	alive := true
+	for _, st := range p.Steps {
+		if !alive {
+			break
+		}
+		n := st.N
+		if !r.waitFor(func() bool { return r.lines() >= n }, fmt.Sprintf("line %d before %s %s", n, st.K, st.A)) {
+			alive = false
+			break
+		}
+		switch st.K {
+		case "send":
+			text := map[string]string{"isready": "isready", "go": "go depth 3", "goponder": "go ponder depth 3", "stop": "stop", "ponderhit": "ponderhit",
+				"pos": "position startpos moves e2e4", "one": "fen", "uci": "uci", "quit": "quit"}[st.A]
+			r.send(st.A, text)
+			if st.A == "stop" || st.A == "ponderhit" || st.A == "pos" {
+				time.Sleep(2 * time.Millisecond)
+			}
+			if st.A == "go" || st.A == "goponder" {
+				if !r.waitFor(func() bool { return atomic.LoadInt32(&r.m.active) == 1 }, "search-start") {
+					alive = false
+				}
+			}
+		case "eof":
+			r.log.add(Ev{Ev: "eof"})
+			r.in.Close()
+			time.Sleep(2 * time.Millisecond)
+		case "search":
+			// the model took this step with the driver quiescent; the real driver may still be digesting the last
+			// silent command (stop, ponderhit, end of input): a poll the model saw succeed is repeated until it does
+			want := strings.HasSuffix(st.A, "T")
+			d := map[string]string{"info": "info", "finish": "finish", "pollT": "poll", "pollF": "poll", "ponderT": "ponder", "ponderF": "ponder"}[st.A]
+			for try := 0; ; try++ {
+				before := len(r.log.evs)
+				ended, ok := r.direct(d)
+				if !ok {
+					alive = false
+					break
+				}
+				got := ended
+				if d == "ponder" {
+					r.log.mu.Lock()
+					got = r.log.evs[len(r.log.evs)-1].R
+					r.log.mu.Unlock()
+				}
+				_ = before
+				if d == "info" || d == "finish" || got == want || !want || try > 2000 {
+					break
+				}
+				time.Sleep(time.Millisecond)
+			}
+		}
+	}
+	if alive {
+		want := len(p.Out)
+		r.waitFor(func() bool { return r.lines() >= want }, "final output")
+		select {
+		case <-r.done:
+			r.log.add(Ev{Ev: "exit"})
+		case <-time.After(patience):
+			r.log.add(Ev{Ev: "timeout", What: "exit"})
+		}
+	}
+}
+
 func countUciLines() int {
 	var sb strings.Builder
 	d := uci.NewDriver(uci.WithInput(strings.NewReader("uci\nquit\n")), uci.WithOutput(&sb), uci.WithError(io.Discard), uci.WithSearch(&mock{}))
@@ -421,6 +508,7 @@ func main() {
 	steps := flag.Int("steps", 14, "steps per scenario")
 	realPct := flag.Int("real", 30, "percentage of scenarios with the real search")
 	out := flag.String("out", "", "")
+	paths := flag.String("paths", "", "replay behaviours enumerated by TLC (json lines) instead of random scenarios")
 	flag.Parse()
 	f, err := os.Create(*out)
 	if err != nil {
@@ -432,11 +520,29 @@ func main() {
 	enc := json.NewEncoder(w)
 	ucilines := countUciLines()
 	base := runtime.NumGoroutine()
+	var plist []pathT
+	if *paths != "" {
+		pf, err := os.Open(*paths)
+		if err != nil {
+			panic(err)
+		}
+		sc := bufio.NewScanner(pf)
+		sc.Buffer(make([]byte, 1<<20), 1<<20)
+		for sc.Scan() {
+			var p pathT
+			if err := json.Unmarshal(sc.Bytes(), &p); err != nil {
+				panic(err)
+			}
+			plist = append(plist, p)
+		}
+		pf.Close()
+		*n = len(plist)
+	}
 	for t := 1; t <= *n; t++ {
 		sd := *seed*1000003 + int64(t)
 		rng := rand.New(rand.NewSource(sd))
 		lg := &logT{t: t}
-		real := rng.Intn(100) < *realPct
+		real := rng.Intn(100) < *realPct && plist == nil
 		lg.add(Ev{Ev: "begin", Mock: !real, UciLines: ucilines, Seed: sd})
 		pr, pw := io.Pipe()
 		sk := &sink{log: lg}
@@ -453,7 +559,11 @@ func main() {
 		go func() { d.Run(); close(done) }()
 		ap := newAsyncPipe(pw)
 		r := &runner{rng: rng, log: lg, out: sk, in: ap, m: m, real: real, done: done, ucilines: ucilines}
-		r.run(*steps)
+		if plist != nil {
+			r.replay(plist[t-1])
+		} else {
+			r.run(*steps)
+		}
 		// release everything if the scenario got stuck (so that the next scenario starts clean)
 		ap.Close()
 		pw.Close()
